@@ -17,6 +17,11 @@ def handle (op : String) (a : List String) : Option String :=
   | "hist", [p, ss] =>
       some ("|".intercalate ((parseSeqs ss).flatMap fun s =>
         [showSeqs (Model.occurrencesIn (parseSeq p) s), showBool (Model.containsOne s (parseSeq p))]))
+  | "lazy", [p, s1, _j, s2] =>
+      -- a listing interrupted after `_j` items by a complete search with the same pattern object
+      some (showSeqs (Model.occurrencesIn (parseSeq p) (parseSeq s1)) ++ "|" ++
+            showSeqs (Model.occurrencesIn (parseSeq p) (parseSeq s2)) ++ "|" ++
+            showBool (Model.containsOne (parseSeq s2) (parseSeq p)))
   | "badarg", [_, _] => some Err.typeError.show
   | "avoids", [s, ps] => some (showBool (Model.avoidsAll (parseSeq s) (parseSeqs ps)))
   | "containedin", [p, ss] => some (showBool (Model.containedIn (parseSeq p) (parseSeqs ss)))
